@@ -11,6 +11,8 @@ Parts (each exhaustive over a stated finite space, all on the real interpreter):
                whole == bytewise == clone; UTF-8 validity of symbols/keywords vs model
   E  jdn       %j print -> parse -> deep= for a bounded universe of values; unprintable values
                must raise
+  F  ops       every history of <= d operations (consume byte, produce, error, flush, state, eof,
+               clone) on one parser: queue/flush/latch/restart invariants, fast and ASan builds
 """
 import os
 import re
@@ -120,6 +122,7 @@ def run_chunk_items(chk, part, items, labels=None, chunk=4, max_report=3, env=No
     nstr = runs = 0
     shapes = set()
     reported = 0
+    ndiff = 0
     for idx, (it, (st, text)) in enumerate(zip(items, res)):
         if st == "OK" and text.startswith("ok\t"):
             f = text.split("\t")
@@ -128,6 +131,7 @@ def run_chunk_items(chk, part, items, labels=None, chunk=4, max_report=3, env=No
             shapes.update(x for x in f[3].split(","))
             continue
         if st == "OK" and text.startswith("DIFF\t"):
+            ndiff += 1
             _, kind, hx, detail = text.split("\t", 3)
             s = bytes.fromhex(hx)
             if reported < max_report:
@@ -139,6 +143,7 @@ def run_chunk_items(chk, part, items, labels=None, chunk=4, max_report=3, env=No
                 chk.violations += 1
             continue
         if st in ("CRASH", "TIMEOUT"):
+            ndiff += 1
             chk.violation(sig="%s:%s:%s" % (part, st.lower(), re.sub(r"\s+", "_", it)[:60]),
                           what="interpreter %s while running the chunk laws on item %s: %s" % (st, it, text[-600:]),
                           replay_text=read("proto.janet") + "\n" + strip_imports(read("chunklib.janet"))
@@ -150,12 +155,14 @@ def run_chunk_items(chk, part, items, labels=None, chunk=4, max_report=3, env=No
         chk.outcome(part[0] + ":" + sh)
     chk.add(evaluations=runs, transitions=runs, states=nstr)
     chk.part(part, strings=nstr, parser_runs=runs, distinct_event_shapes=len(shapes))
-    return nstr, runs, len(shapes)
+    return nstr, runs, ndiff
 
 
-def part_enum(chk):
-    fams = FAMILIES_QUICK if chk.quick else FAMILIES_THOROUGH
-    done = []          # (alphabet set, max length completed)
+ENUM_DONE = []      # (name, alphabet set, max length completed)
+
+
+def part_enum(chk, fams):
+    done = [(a, m) for _, a, m in ENUM_DONE]
     stopped = False
     for name, alpha, maxlen in fams:
         completed = -1
@@ -168,16 +175,17 @@ def part_enum(chk):
                 stopped = True
                 break
             items = chunk_items_for_family(alpha, n)
-            nstr, runs, nsh = run_chunk_items(chk, "enum:%s" % name, items)
+            nstr, runs, nviol = run_chunk_items(chk, "enum:%s" % name, items)
             chk.part("enum:%s" % name, **{"len%d_strings" % n: nstr})
-            if nstr != len(alpha) ** n:
+            if nviol == 0 and nstr != len(alpha) ** n:
                 raise HarnessError("enum %s len %d: %d strings, expected %d" % (name, n, nstr, len(alpha) ** n))
             completed = n
         done.append((set(alpha), completed))
+        ENUM_DONE.append((name, set(alpha), completed))
         chk.part("enum:%s" % name, alphabet=esc(alpha), bound_completed="all strings of length <= %d" % completed)
         if stopped:
             break
-    chk.cov["bound_completed"] = "; ".join("%s: all strings <= %d" % (f[0], d[1]) for f, d in zip(fams, done))
+    chk.cov["bound_completed"] = "; ".join("%s: all strings <= %d" % (n, m) for n, _, m in ENUM_DONE)
 
 
 TEMPLATES = [
@@ -316,13 +324,23 @@ def part_values(chk, texts):
     # negative cases: an error must be reported (and never a crash)
     neg = M.negative_cases()
     res = run_batch("fast", D_VALUES, [jdn([Kw("t"), t]) for t in neg], chunk=500)
+    nbad = 0
     for t, (st, got) in zip(neg, res):
         chk.add(evaluations=1)
         if st != "OK":
             raise HarnessError("driver_values negative %s: %s %s" % (jstr(t), st, got[:300]))
-        if "\\x0aE" not in ("\\x0a" + got[1:]) or got[0] != "=":
-            chk.violation(sig="values:invalid-accepted:%s" % t.hex(), what="invalid text %s produced no parse error: [%s]" % (jstr(t), got),
-                          replay_text=replay_expect(t, b"<an E line>", got.encode()), replay_cmd="janet <this file>")
+        if got[0] != "=":
+            why, sig = "byte-wise feeding differs from whole feeding", "values:invalid-text-chunking:%s" % t.hex()
+        elif "\\x0aE" not in ("\\x0a" + got[1:]):
+            why, sig = "invalid text produced no parse error", "values:invalid-accepted:%s" % t.hex()
+        else:
+            continue
+        nbad += 1
+        if nbad <= 3:
+            chk.violation(sig=sig, what="%s: %s -> [%s]" % (why, jstr(t), got[1:].replace("\\x0a", " | ")),
+                          replay_text=replay_chunklaw(t), replay_cmd="janet <this file>")
+        else:
+            chk.violations += 1
     chk.part("values", negative_texts=len(neg))
 
 
@@ -636,6 +654,81 @@ def part_jdn(chk):
 
 
 # ------------------------------------------------------------------------------------------------
+# part F
+
+OPS = b'a( )"pefszc'
+OP_NAMES = {ord("p"): "(parser/produce p)", ord("e"): "(parser/error p)", ord("f"): "(parser/flush p)", ord("s"): "(parser/state p)",
+            ord("z"): "(parser/eof p)", ord("c"): "(set p (parser/clone p))"}
+
+
+def replay_ops(hist, law):
+    lines = ["# history: %s   (law %s, see props/C11/driver_ops.janet)" % (esc(hist), law), "(var p (parser/new))"]
+    for c in hist:
+        lines.append(OP_NAMES.get(c, "(parser/consume p %s)" % jstr(bytes([c]))))
+    lines += ["(printf \"status %q has-more %q where %q\" (parser/status p) (parser/has-more p) (parser/where p))",
+              "(def n (length (((parser/state p :frames) 0) :args)))   # reads the root frame",
+              "(def q (parser/clone p)) (var k 0) (while (parser/has-more q) (parser/produce q) (++ k))",
+              "(printf \"root frame lists %d queued values, produce delivers %d\" n k)",
+              "# the full set of invariants:"]
+    return ("\n".join(lines) + "\n" + read("proto.janet") + "\n" + strip_imports(read("opslib.janet"))
+            + "\n(try (do (run-history %s) (print \"all invariants hold\")) ([e] (print \"INVARIANT BROKEN: \" e) (os/exit 1)))\n" % jstr(hist))
+
+
+def run_ops(chk, variant, depth, part):
+    plen = 2 if depth > 3 else 0
+    items = [jdn([Kw("ops"), OPS, depth, bytes(p)]) for p in itertools.product(OPS, repeat=plen)]
+    env = {"C11_OPS_ASAN": "1"} if variant != "fast" else None
+    res = run_batch(variant, os.path.join(HERE, "driver_ops.janet"), items, chunk=2, timeout=900, env=env)
+    nh = nops = 0
+    outs = set()
+    worst = {}
+    for it, (st, text) in zip(items, res):
+        if st == "OK" and text.startswith("ok\t"):
+            f = text.split("\t")
+            nh += int(f[1])
+            nops += int(f[2])
+            outs.update(f[3].split(","))
+            if len(f) > 4 and f[4]:
+                for ent in f[4].split("\x01"):
+                    law, hist, cnt, detail = ent.split("=", 3)
+                    w = worst.setdefault(law, [hist, 0, detail])
+                    w[1] += int(cnt)
+                    if (len(hist), hist) < (len(w[0]), w[0]):
+                        w[0], w[2] = hist, detail
+            continue
+        if st in ("CRASH", "TIMEOUT"):
+            chk.violation(sig="%s:%s:%s" % (part, st.lower(), re.sub(r"\s+", "_", it)[:50]),
+                          what="interpreter %s (%s build) in operation histories %s: %s" % (st, variant, it, text[-900:]),
+                          replay_text="# family %s of props/C11/driver_ops.janet\n" % it + read("proto.janet") + "\n" + strip_imports(read("opslib.janet")),
+                          replay_cmd="janet <this file> after appending (run-history \"<ops>\") for the histories of the family; use an ASan build")
+            continue
+        raise HarnessError("driver_ops item %s: %s %s" % (it, st, text[:500]))
+    for o in outs:
+        chk.outcome("F:" + o)
+    chk.add(evaluations=nops, transitions=nops, states=nh)
+    chk.part(part, histories=nh, operations=nops, depth=depth, variant=variant, alphabet=esc(OPS), state_classes=len(outs),
+             broken={k: v[1] for k, v in worst.items()})
+    for law in sorted(worst):
+        hist, cnt, detail = worst[law]
+        chk.violation(sig="ops:%s" % law, what="%d histories break %s; shortest: %s -- %s" % (cnt, law, jstr(hist.encode("latin-1")), detail),
+                      replay_text=replay_ops(hist.encode("latin-1"), law), replay_cmd="janet <this file>")
+
+
+def part_ops(chk):
+    run_ops(chk, "fast", 5 if chk.quick else 6, "ops:fast")
+    run_ops(chk, "asan", 4 if chk.quick else 5, "ops:asan")
+
+
+def part_ops_deep(chk):
+    if chk.quick:
+        return
+    if chk.out_of_time(0.85):
+        chk.cap("ops: depth 7 not run")
+        return
+    run_ops(chk, "fast", 7, "ops:fast-depth7")
+
+
+# ------------------------------------------------------------------------------------------------
 
 def main():
     chk = Check("C11", description=__doc__)
@@ -651,21 +744,34 @@ def main():
                "position is where its parser state was pushed")
     only = chk.args.only
     vjanet("fast")
+    fams = FAMILIES_QUICK if chk.quick else FAMILIES_THOROUGH
     texts = None
+
+    def timed(name, fn, *a):
+        t0 = chk.elapsed()
+        fn(chk, *a)
+        chk.part("wall_s", **{name: round(chk.elapsed() - t0, 1)})
+
     if only in (None, "values", "templates"):
         texts = value_texts(chk)
     if only in (None, "values"):
-        part_values(chk, texts)
-    if only in (None, "jdn"):
-        part_jdn(chk)
-    if only in (None, "utf8"):
-        part_utf8(chk)
-    if only in (None, "bytes"):
-        part_bytes(chk)
-    if only in (None, "templates"):
-        part_templates(chk, texts)
+        timed("values", part_values, texts)
     if only in (None, "enum"):
-        part_enum(chk)
+        timed("enum-first", part_enum, fams[:1])
+    if only in (None, "jdn"):
+        timed("jdn", part_jdn)
+    if only in (None, "ops"):
+        timed("ops", part_ops)
+    if only in (None, "utf8"):
+        timed("utf8", part_utf8)
+    if only in (None, "bytes"):
+        timed("bytes", part_bytes)
+    if only in (None, "templates"):
+        timed("templates", part_templates, texts)
+    if only in (None, "enum"):
+        timed("enum-rest", part_enum, fams[1:])
+    if only in (None, "ops"):
+        timed("ops-deep", part_ops_deep)
     chk.sample({"part": "enum", "first": "", "middle": esc(A21[:3]), "last": esc(A21[-1:] * 4)})
     if texts:
         for i in (0, len(texts) // 2, len(texts) - 1):
